@@ -95,7 +95,7 @@ def explicit(table, v):
 
 
 def run(tier, seed, rng):
-    ng = 60 if tier == 'quick' else 500
+    ng = 60 if tier == 'quick' else 1500
     groups = []
     meta = []
     for gid in range(ng):
